@@ -10,7 +10,7 @@ Require Import MD.Sched.FrameLoop.
 Open Scope Z_scope.
 
 (* dssp_loop : dssp in mdtraj/geometry/src/dssp.cpp
-   cells: 0=<control>, 1=framexyz, 2=hbonds, 3=henergies, 4=fs_codes, 5=j, 6=ss | cursors:  | per-frame arrays: 0=xyz | globals: 0=n_atoms, 1=n_residues, 2=nco_indices, 3=ca_indices, 4=is_proline, 5=chain_ids, 6=skip *)
+   cells: 0=<control>, 1=framexyz, 2=hbonds, 3=henergies, 4=framesecondary, 5=j, 6=ss | cursors:  | per-frame arrays: 0=xyz | globals: 0=n_atoms, 1=n_residues, 2=nco_indices, 3=ca_indices, 4=is_proline, 5=chain_ids, 6=skip *)
 Definition dssp_loop : fprog :=
   [FSet 1 (FAdd (FIdx 0) (FGlob 0));
    FSet 2 (FGlob 1);
